@@ -928,6 +928,7 @@ def run(ctx):
         "the reference value is the extracted SemFast oracle (tied to Sem.prob by C01/C08), implementation floats compared at 1e-9",
     ]
     ctx.prove("C26/Props.v")
+    ctx.prove("C26/PropsExtra.v")
     try:
         so.build(ctx)
     except Exception as e:
